@@ -40,3 +40,7 @@ def shrink(line, fails):
 
 def classify(line, obs, why):
     return None
+
+
+def conclusive(line):
+    return line.startswith("(qstress")
